@@ -6,6 +6,8 @@ for id in $(ls); do
   D=$(mktemp -d /tmp/benall.XXXXXX)
   cp -r /repo/spatialmath "$D/spatialmath"
   ( cd "$D" && patch -s -p1 < /verif/seeded_benign/$id/patch.diff ) || { echo "$id patch failed"; rm -rf "$D"; continue; }
+  # ALPHA=1: additionally rename every local variable of every function (tools/alpha_rename.py) on top of the refactoring
+  if [ "$ALPHA" = 1 ]; then mv "$D/spatialmath" "$D/sm0"; /venv/bin/python /verif/tools/alpha_rename.py "$D/sm0" "$D/spatialmath" _q >/dev/null 2>&1; rm -rf "$D/sm0"; fi
   for p in C01 C02 C03 C04 C05 C06 C07 C08 C09 C10 C11 C12 C13 C14 C15 C16 C17 C18 C19 C20; do echo $p; done | \
     xargs -P 10 -I{} sh -c 'out=$(VERIF_EVIDENCE_DIR='"$D"'/ev_{} /verif/check {} --repo '"$D"' 2>&1); v=$(echo "$out" | grep -c "^VIOLATION"); e=$(echo "$out" | grep -c "^ANALYSIS-ERROR"); u=$(echo "$out" | grep -c "^UNRECOGNISED"); if [ "$v" != 0 ] || [ "$e" != 0 ] || [ "$u" != 0 ]; then echo "'"$id"' {} violations=$v errors=$e unrecognised=$u"; fi'
   rm -rf "$D"
